@@ -238,6 +238,118 @@ def qd_once(ctx):
     return out
 
 
+def _ret_variants(fn, edge, adt='core::task::poll::Poll'):
+    """Variants of `adt` assigned to the return place on paths from `edge` (None in the set when a path returns something else)."""
+    blocks = {}
+    for bb, b in enumerate(fn.blocks):
+        if b['cleanup']:
+            continue
+        for s in b['stmts']:
+            if s['k'] == 'assign' and not s['pl']['p'] and s['pl']['l'] == 0:
+                if s['rv']['k'] == 'agg' and s['rv'].get('adt') == adt:
+                    blocks[bb] = s['rv'].get('variant')
+                else:
+                    blocks[bb] = None
+    reach = fn.reachable_blocks(edge)
+    return set(v for b, v in blocks.items() if b in reach), blocks
+
+
+def qd_run(ctx):
+    """Jobs do what they are for: Job::run calls its closure (then reports Ready), FutureJob::run reports exactly what its future
+    reported, UnsafeJob::run delegates to the job it points to and hands its answer back unchanged; dropping an UnsafeJob that carries a
+    notification sets the flag to true before notifying."""
+    from .ordq import result_edges, edge_for, calls, dominates
+    from .rules_locks import cg
+    F = ctx.F
+    g = cg(ctx)
+    out = []
+    R = 'QD-run'
+    POLL = 'core::task::poll::Poll'
+    # Job::run
+    jr = F.fn('desync::Job::run')
+    key = 'Job::run|calls-action'
+    if not jr:
+        out.append(undecided(R, key, 'anchor not found'))
+    else:
+        acts = [s for s in g.sites.get(jr.name, []) if s.kind == 'param']
+        takes = [(bb, t) for bb, t in jr.calls() if (t['func'].get('fn') or '') == 'core::option::Option::take']
+        e = result_edges(jr, takes[0][0]) if len(takes) == 1 else None
+        some = edge_for(e, 'core::option::Option', 'Some') if e else None
+        if len(acts) != 1 or some is None:
+            out.append(bad(R, key, 'Job::run does not call its closure exactly once on the path where it still has it (call sites: %d)' % len(acts), fn=jr.name))
+        else:
+            rv, _ = _ret_variants(jr, acts[0].t['target'] if acts[0].t['target'] is not None else some)
+            if jr.must_pass(some, set(jr.exits()), {acts[0].bb}) and rv == {'Ready'}:
+                out.append(ok(R, key, 'the closure is called on every path that still holds it, then Ready is reported', fn=jr.name))
+            else:
+                out.append(bad(R, key, 'a path through Job::run reports completion without having called the closure (or reports something other than Ready after it)', fn=jr.name))
+    # FutureJob::run
+    fj = F.fn('desync::FutureJob::run')
+    key = 'FutureJob::run|reports-what-the-future-reported'
+    if not fj:
+        out.append(undecided(R, key, 'anchor not found'))
+    else:
+        polls = [(bb, t) for bb, t in fj.calls() if (t['func'].get('fn') or '').endswith(('poll_unpin', 'Future::poll'))]
+        e = result_edges(fj, polls[0][0]) if len(polls) == 1 else None
+        rdy = edge_for(e, POLL, 'Ready') if e else None
+        pend = edge_for(e, POLL, 'Pending') if e else None
+        if rdy is None or pend is None:
+            out.append(undecided(R, key, 'match on the future\'s poll not recognised'))
+        else:
+            a, _ = _ret_variants(fj, rdy)
+            b, _ = _ret_variants(fj, pend)
+            # the two arms join at the return: judge each by the assignments it dominates
+            from .ordq import edom
+            _, blocks = _ret_variants(fj, 0)
+            ra = set(v for bb, v in blocks.items() if edom(fj, rdy, bb))
+            rb = set(v for bb, v in blocks.items() if edom(fj, pend, bb))
+            if ra == {'Ready'} and rb == {'Pending'}:
+                out.append(ok(R, key, 'Ready when the future is Ready, Pending when it is Pending', fn=fj.name))
+            else:
+                out.append(bad(R, key, 'FutureJob::run reports %s when its future is Ready and %s when it is Pending: a suspended operation is treated as finished (and dropped), or a finished one is polled again' % (sorted(str(x) for x in ra), sorted(str(x) for x in rb)), fn=fj.name))
+    # UnsafeJob::run
+    uj = F.fn('desync::UnsafeJob::run')
+    key = 'UnsafeJob::run|delegates'
+    if not uj:
+        out.append(undecided(R, key, 'anchor not found'))
+    else:
+        dels = [(bb, t) for bb, t in uj.calls() if t.get('method') == 'run' and t.get('rk') == 'virtual']
+        if len(dels) == 1 and not dels[0][1]['dest']['p'] and dels[0][1]['dest']['l'] == 0 and uj.must_pass(0, set(uj.exits()), {dels[0][0]}):
+            out.append(ok(R, key, 'runs the job it points to and returns its answer', fn=uj.name))
+        elif len(dels) == 1 and uj.must_pass(0, set(uj.exits()), {dels[0][0]}) and 'run(' in __import__('dsa.facts', fromlist=['render']).render(uj.expr_of_local(0)):
+            out.append(ok(R, key, 'runs the job it points to and returns its answer', fn=uj.name))
+        else:
+            out.append(bad(R, key, 'UnsafeJob::run does not (always) run the job it points to, or does not return that job\'s answer', fn=uj.name))
+    # UnsafeJob::drop: flag := true, then notify
+    ud = F.fn('<desync::UnsafeJob as core::ops::drop::Drop>::drop')
+    key = 'UnsafeJob::drop|flag-true-then-notify'
+    if not ud:
+        out.append(undecided(R, key, 'anchor not found'))
+    else:
+        H = ctx.held(ud)
+        sets = []
+        for bb, b in enumerate(ud.blocks):
+            if b['cleanup']:
+                continue
+            for i, s_ in enumerate(b['stmts']):
+                if s_['k'] == 'assign' and s_['pl']['p'] and 'sync.ready' in H.held_before(bb, i) and s_['rv']['k'] == 'use' and s_['rv']['op']['k'] == 'const':
+                    sets.append((bb, str(s_['rv']['op'].get('val'))))
+        notifies = [bb for bb, t in ud.calls() if (t['func'].get('fn') or '').endswith(('Condvar::notify_all', 'Condvar::notify_one'))]
+        takes = [(bb, t) for bb, t in ud.calls() if (t['func'].get('fn') or '') == 'core::option::Option::take']
+        e = result_edges(ud, takes[0][0]) if len(takes) == 1 else None
+        some = edge_for(e, 'core::option::Option', 'Some') if e else None
+        if not sets or not notifies or some is None:
+            out.append(bad(R, key, 'dropping an UnsafeJob no longer sets the finished flag and notifies the waiting sync caller', fn=ud.name))
+        elif any(v != '1' for bb, v in sets):
+            out.append(bad(R, key, 'the finished flag is set to false: the sync caller waiting for this job never sees it finish', fn=ud.name))
+        elif ud.must_pass(some, set(ud.exits()), set(bb for bb, v in sets)) and all(any(dominates(ud, sb, nb) for sb, v in sets) for nb in notifies) \
+                and ud.must_pass(some, set(ud.exits()), set(notifies)):
+            out.append(ok(R, key, 'the flag is set to true under its mutex and the condition variable is notified on every path that carries a notification', fn=ud.name))
+        else:
+            out.append(bad(R, key, 'a path drops the job without setting the flag and notifying', fn=ud.name))
+    return out
+
+
 def qd_wake_blocked(ctx):
     """JobQueueCore.wake_blocked: blocked sync callers register once (push) and stay registered until they leave; the list is only ever
     pruned of entries whose waiter is gone (retain on strong_count)."""
